@@ -410,16 +410,21 @@ def int_bounds(t):
     return (-(1 << (bits - 1)), (1 << (bits - 1)) - 1) if signed else (0, (1 << bits) - 1)
 
 
-def literal(rnd, v, ty, allow_suffix=True):
+def literal(rnd, v, ty, allow_suffix=True, form=None):
     """A Rust literal expression denoting v, in a randomly chosen syntactic form."""
     neg = v < 0
     a = -v if neg else v
+    signed = ty.startswith("i")
+    if form == "dneg" or (form is None and signed and rnd.random() < 0.12):
+        # two extra negations (`- -5`, `- - -5`): the derive's expression evaluator recurses through each
+        inner = literal(rnd, v, ty, allow_suffix=False, form="dec")
+        return "- -" + inner if signed else inner
     forms = ["dec", "hex", "oct", "bin", "und"]
     if allow_suffix:
         forms.append("suf")
     if ty == "u8" and 32 < a < 127 and not neg and chr(a) not in "'\\":
         forms.append("byte")
-    f = rnd.choice(forms)
+    f = form if form in forms else rnd.choice(forms)
     if f == "dec":
         s = str(a)
     elif f == "hex":
@@ -452,9 +457,12 @@ def enum_family(tier, seed):
         ("C", None, [(None, 0), (None, 1)]), ("none", None, [(None, 0), (None, 1)]), ("Cint", "u8", [("e", 0), ("e", 2)]),
         ("int", "u16", [("e", 65535), ("e", 65534)]), ("int", "i8", [("e", -128), (None, -127)]), ("int", "u8", [("e", 254), (None, 255)]),
         ("int", "u64", [("e", 0), ("e", 1 << 40)]), ("int", "i128", [("e", -1), (None, 0), (None, 1)]),
+        # doubly negated discriminants, with implicit ones after them
+        ("int", "i8", [("dneg", 1), (None, 2)]), ("int", "i16", [("e", -3), ("dneg", 5), (None, 6)]),
+        ("int", "i32", [("dneg", -2), (None, -1), (None, 0)]), ("int", "i64", [("dneg", 0), (None, 1)]),
     ]
     for (k, t, vs) in corpus:
-        defs.append(dict(rk=k, ty=t, variants=[dict(explicit=(e is not None), value=v, fields=[]) for (e, v) in vs]))
+        defs.append(dict(rk=k, ty=t, variants=[dict(explicit=(e is not None), value=v, fields=[], **({"form": e} if e == "dneg" else {})) for (e, v) in vs]))
     while len(defs) < n:
         rk, ty = rnd.choice(reprs)
         dty = ty or "isize"
@@ -500,7 +508,7 @@ def render_enum(d, derive, rnd):
         body = ""
         if v["fields"]:
             body = "(%s)" % ", ".join(LEAVES[f][0] for f in v["fields"])
-        disc = (" = " + literal(rnd, v["value"], dty)) if v["explicit"] else ""
+        disc = (" = " + literal(rnd, v["value"], dty, form=v.get("form"))) if v["explicit"] else ""
         vs.append("V%d%s%s" % (k, body, disc))
     return "#[derive(%s)]\n%s\npub enum E { %s }" % (", ".join(ders), attrs, ", ".join(vs))
 
